@@ -1124,7 +1124,19 @@ pub fn static_checks(comp: &BTreeMap<String, Val>, rf: &Reference) -> StaticRepo
 /// `which` = "layout" or "likely".
 pub fn check_output(which: &str, text: &str, comp: &BTreeMap<String, Val>) -> Vec<Violation> {
     let mut out = vec![];
-    let items: Vec<Item> = match parse_items(text) {
+    let expected_names: &[&str] = if which == "layout" { &LAYOUT_ITEMS } else { &LIKELY_ITEMS };
+    // The fast path applies when the output spells the tables as plain items under their own
+    // names. Anything else that may still be perfectly good Rust — a macro DSL, const-fn
+    // constructors, but also the tables stored under other names or in another shape (parallel
+    // key/value arrays, chunked statics) with the ten logical tables derived at compile time
+    // (control `j6_r2`) — is judged by what it denotes once compiled in place of the checked-in file.
+    let parsed = parse_items(text).and_then(|items| {
+        match expected_names.iter().find(|n| !items.iter().any(|it| it.name == **n)) {
+            Some(missing) if !items.is_empty() => Err(format!("no plain item named {}", missing)),
+            _ => Ok(items),
+        }
+    });
+    let items: Vec<Item> = match parsed {
         Ok(i) => i,
         Err(e) => {
             // Not the plain item syntax: the output may still be perfectly good Rust (macro DSL,
